@@ -819,6 +819,18 @@ class SimSocket:
                 stolen.peer.eof = True
             s.tick()
             raise BlockingIOError(errno.EAGAIN, "Resource temporarily unavailable")
+        if l.queue and s.buggify.get("accept_econnaborted") and s.choices.coin(1, 6, "accept-econnaborted"):
+            # the client reset the connection while it was waiting in the accept queue: accept() fails with ECONNABORTED and the
+            # connection is gone (the client, if it is still there, sees a reset)
+            s.fault("accept_econnaborted")
+            gone = l.queue.pop(0)
+            s.stolen.append(gone)
+            gone.closed = True
+            if gone.peer is not None:
+                gone.peer.rst = True
+                gone.peer.eof = True
+            s.tick()
+            raise ConnectionAbortedError(errno.ECONNABORTED, "Software caused connection abort")
         if not l.queue:
             if o.nonblock:
                 s.tick()
